@@ -8,6 +8,7 @@ import (
 	"io"
 	"reflect"
 	"regexp"
+	"strings"
 	"time"
 
 	rhp2 "go.sia.tech/core/rhp/v2"
@@ -234,7 +235,8 @@ func valueDiff(a, b reflect.Value, path string) string {
 		}
 		return ""
 	}
-	if a.CanInterface() && a.Type().Implements(tEncoderTo) && !(a.Kind() == reflect.Ptr && (a.IsNil() || b.IsNil())) && !(a.Kind() == reflect.Interface) {
+	// (only the consensus types: the protocol objects' own encoders are what is being judged)
+	if a.CanInterface() && a.Type().Implements(tEncoderTo) && strings.HasSuffix(a.Type().PkgPath(), "core/types") && !(a.Kind() == reflect.Ptr && (a.IsNil() || b.IsNil())) && !(a.Kind() == reflect.Interface) {
 		var ea, eb []byte
 		if guardPanic(func() { ea, eb = encObj(a.Interface().(types.EncoderTo)), encObj(b.Interface().(types.EncoderTo)) }) == "" {
 			if !bytes.Equal(ea, eb) {
